@@ -330,9 +330,11 @@ def jobs(tier):
             elif name == "long_plain":
                 parts = [dict(base, n1hi=Lv + 2)]
             elif name == "two_lits":
-                parts = [dict(base, n1lo=lo, n1hi=min(lo + 8, Lv + 2), npay=3, n2hi=2) for lo in range(0, Lv + 3, 9)]
+                # announced sizes a conforming client can produce: up to the payload menu's length, or beyond
+                # the limit (refused before any payload is sent); the sizes in between have no conforming stream
+                parts = [dict(base, n1lo=0, n1hi=5, npay=3, n2hi=2), dict(base, n1lo=Lv - 1, n1hi=Lv + 2, npay=3, n2hi=2)]
             else:
-                parts = [dict(base, n1lo=lo, n1hi=min(lo + 13, Lv + 2), npay=6) for lo in range(0, Lv + 3, 14)]
+                parts = [dict(base, n1lo=0, n1hi=8, npay=6), dict(base, n1lo=Lv - 1, n1hi=Lv + 2, npay=6)]
             for k, pr in enumerate(parts):
                 js.append({"name": f"front_end[L={Lv},{name},{k}]", "fn": "front_end", "params": pr, "timeout": T, "per_path": 60})
     js.append({"name": "ipc_roundtrip", "fn": "ipc_roundtrip", "params": {}, "timeout": T, "per_path": 60})
